@@ -106,6 +106,8 @@ def int_expr(draw, env, depth=0):
         if not env.get('arrays', True):
             return ['lit', 5]
         a = draw(st.sampled_from(['x', 'z', 'y']))
+        if draw(st.integers(0, 3)) != 3:
+            return ['size', a]
         return ['ubound', a, draw(st.integers(1, 2 if a == 'y' else 1)), draw(st.booleans())]
     if k == 'merge':
         return ['merge', draw(int_expr(env, depth + 1)), draw(int_expr(env, depth + 1)), draw(cond(env, 2))]
@@ -128,12 +130,6 @@ def cmp(draw, env, depth=0):
     return ['cmp', draw(st.sampled_from(OPS)), draw(int_expr(env, depth + 1)), draw(int_expr(env, depth + 1)), draw(_spell())]
 
 
-def _not_a_not(c):
-    while c[0] == 'paren':
-        c = c[1]
-    return c[0] != 'not'
-
-
 @st.composite
 def cond(draw, env, depth=0):
     kinds = ['cmp', 'cmp', 'cmp'] + ([] if depth >= 2 else ['and', 'or', 'and', 'not', 'paren', 'lvar', 'scmp'])
@@ -146,8 +142,7 @@ def cond(draw, env, depth=0):
         cm = draw(st.integers(0, len(COMMENTS) - 1)) if brk == 2 else None
         return [k, draw(cond(env, depth + 1)), draw(cond(env, depth + 1)), brk, cm, draw(st.booleans())]
     if k == 'not':
-        # (never .not. directly applied to .not.: loki prints that as `.not..not.`, which is not Fortran; owner: C06)
-        return ['not', ['paren', draw(cond(env, depth + 1).filter(_not_a_not))]]
+        return ['not', ['paren', draw(cond(env, depth + 1))]]
     if k == 'paren':
         return ['paren', draw(cond(env, depth + 1))]
     if k == 'lvar':
@@ -273,25 +268,27 @@ def ubound_spec(draw, arr, profile):
     mode = draw(st.sampled_from(modes))
     spec = {'mode': mode}
     if mode in ('full', 'partial'):
+        bk = ['dummy'] * 28
+        if profile.get('ubound_smaller'):
+            bk += ['smaller']
+        if profile.get('ubound_local'):
+            bk += ['local']
+        spec['bound'] = draw(st.sampled_from(bk))
+        # a check `ubound /= n` only passes when the actual extent is exactly n
+        allow_ne = profile.get('ubound_ne') and spec['bound'] != 'smaller'
         dims = []
         for d in range(rank):
             dims.append({
                 'orient': draw(st.sampled_from(['ub<n', 'n>ub'])),
                 'sp': draw(st.sampled_from([0, 0, 1, 2])),       # spelling of < / > (0 = F90, else .lt./.gt.)
                 'upper': draw(st.booleans()),                    # UBOUND( vs ubound(
-                'rel': draw(st.sampled_from(['lt'] * 9 + (['ne'] if profile.get('ubound_ne') else ['lt']))),
+                'rel': draw(st.sampled_from(['lt'] * 39 + (['ne'] if allow_ne else ['lt']))),
             })
         spec['dims'] = dims
         spec['joined'] = draw(st.sampled_from([None, None, 'or', 'and'])) if rank == 2 and mode == 'full' else None
         spec['inline'] = draw(st.integers(0, 3)) == 0
         spec['body'] = draw(st.sampled_from(['stop', 'print+stop']))   # (ERROR STOP crashes loki's frontend)
         spec['partial_dim'] = draw(st.integers(0, 1)) if mode == 'partial' else None
-        bk = ['dummy'] * 8
-        if profile.get('ubound_smaller'):
-            bk += ['smaller']
-        if profile.get('ubound_local'):
-            bk += ['local']
-        spec['bound'] = draw(st.sampled_from(bk))
     return spec
 
 
@@ -315,6 +312,16 @@ def routine(draw, name, profile, in_module):
         'body': draw(stmts(env, 0, profile.get('maxlen', 5))),
         'member': None,
     }
+    if draw(st.integers(0, 3)) != 3:
+        # most routines contain at least one old-style operator by construction
+        forced = ['cmp', draw(st.sampled_from(OPS)), draw(int_expr(env, 1)), draw(int_expr(env, 1)),
+                  {'s': draw(st.sampled_from([1, 2, 3])), 'tight': False}]
+        if draw(st.booleans()):
+            first = {'k': 'if1', 'c': forced, 'b': draw(simple_stmt(env, allow_tc=False)), 'tc': draw(_tc())}
+        else:
+            first = {'k': 'if', 'br': [{'c': forced, 'b': draw(stmts(env, 1, 2)), 'tc': draw(_tc())}], 'else': None,
+                     'elseif_joined': False}
+        r['body'].insert(draw(st.integers(0, len(r['body']))), first)
     if has_member:
         menv = {'vars': ['q'], 'targets': ['q'], 'writable': False, 'arrays': False, 'strings': False, 'loop': None, 'in_while': True}
         r['member'] = {'body': draw(stmts(menv, 1, 2))}
@@ -805,12 +812,12 @@ def render_broken(stem, kind):
 def lint_file(draw, idx):
     """one file of a C42 file set"""
     stem = f'f{idx:02d}{draw(st.sampled_from(["kern", "phys", "util", "geo"]))}'
-    kind = draw(st.sampled_from(['viol', 'viol', 'viol', 'clean', 'broken', 'broken']))
+    kind = draw(st.sampled_from(['viol', 'broken', 'clean', 'viol', 'broken', 'viol']))
     f = {
         'stem': stem, 'kind': kind,
         'suffix': draw(st.sampled_from(['.F90', '.f90'])),
         'dir': draw(st.sampled_from(['', '', 'sub', 'sub/deep', 'other'])),
-        'selected': draw(st.integers(0, 5)) != 0,
+        'selected': draw(st.integers(0, 5)) != 5,
     }
     if kind == 'viol':
         prof = {'maxlen': 3, 'members': True, 'functions': True, 'ubound': True}
